@@ -64,7 +64,8 @@ if rc3 not in (0, 1):
 dst = f'/verif/seeded/{name}'
 os.makedirs(dst, exist_ok=True)
 for f in os.listdir(seed):
-    shutil.copy(os.path.join(seed, f), dst)
+    if os.path.isfile(os.path.join(seed, f)) and not f.startswith('_') and os.path.getsize(os.path.join(seed, f)) < 200000:
+        shutil.copy(os.path.join(seed, f), dst)
 meta = {}
 try:
     meta = json.load(open(os.path.join(seed, 'meta.json')))
